@@ -134,6 +134,17 @@ CLAIMED = {
    note="trusted: snapshot / alias observation in gbverif/drivers/memory.py (reads pandas' block reference tracker to recognise copy-on-write protection); state accessors (group_ikey, ikey_count, result_index) are not written through",
    technique="TLA+ spec GBMemory model-checked with TLC, state graph replayed into the real object, histories trace-validated (Trace_GBMemory)",
    ref="DESIGN.md section 6/C19"),
+ "C12": dict(
+   text="TLC checks the dtype flow machine (GBDtype: container -> NumPy with temporal data viewed as int64 and the logical type "
+        "remembered, accumulator dtype per operation family, restoration incl. time unit and time zone; invariants SelectionKeepsDtype, "
+        "TemporalExact, IntSumIs64, CountIsNumber, DiffIsDuration; 4 negative configurations) for every dtype x family.  Every real call "
+        "over 20 value dtypes x 11 value containers x drawn key container/dtype x reductions, cumulative, rolling extremes/shift/diff and "
+        "head/tail/nth is validated twice by TLC: labels and numbers against the same deterministic machines as C01/C08/C09/C15 (so every "
+        "container gives the machine's answer, exactly, with values at 2^53 / 2^55 ns and integer sums beyond 32 bits), and the logical "
+        "result dtype against GBDtype.",
+   note="trusted: dtdesc (logical dtype of NumPy / pandas / polars / pyarrow objects), embeddings; result dtypes judged only where the property states them; a float NaN is supplied as a real null in arrow / polars containers",
+   technique="TLA+ spec GBDtype model-checked with TLC + trace validation (Trace_GBDtype, Trace_GBCore, Trace_GBCumulative, Trace_GBRolling, Trace_GBSelect) of container x dtype products",
+   ref="DESIGN.md section 6/C12"),
 }
 REASONS = {}
 props = [json.loads(l) for l in open("/verif/properties.jsonl")]
